@@ -52,10 +52,16 @@ var _ imap.UID // used by //@ func headers
 //@   trusted
 //@   ensures old(dec.err) != nil ==> dec.err == old(dec.err)
 
+// List: that the callback keeps a recorded error is assumed (callback
+// invariant); what is proved is the nesting account on the paths that do not
+// run the callback: the depth counter is left as it was found (an empty list
+// neither leaks nor releases a level).
+//
 //@ func (dec *Decoder) List(f func() error) (isList bool, err error)
-//@   props C02:post,pre@call C04:post,pre@call C05:post,pre@call C06:bounds,assert-type,div0,panic-unreachable,pre@call
-//@   trusted
-//@   ensures old(dec.err) != nil ==> dec.err == old(dec.err)
+//@   props C02:post,pre@call C04:post,pre@call C05:post,pre@call C06:bounds,assert-type,div0,panic-unreachable,pre@call C01:post C11:post
+//@   assumes old(dec.err) != nil ==> dec.err == old(dec.err)
+//@   ensures !__called("f") ==> dec.listDepth == old(dec.listDepth)
+//@   ensures __called("f") ==> old(dec.listDepth)+1 < maxListDepth
 
 //@ func (dec *Decoder) ExpectList(f func() error) (err error)
 //@   props C02:post,pre@call C04:post,pre@call C05:post,pre@call C06:bounds,assert-type,div0,panic-unreachable,pre@call
